@@ -85,6 +85,11 @@ def make_coll(spec, rng):
         sigs.append(np.array(vals, dtype=dt))
     cont = spec['cont']
     base = SignatureArray(sigs, ks, dtype=dt) if 'array' in cont else SignatureList(sigs, ks, dtype=dt)
+    if cont in ('window', 'annotated-window'):
+        # a zero-copy window into a larger concatenated array (shared values, bounds[0] != 0)
+        pad = [np.array([1, 2], dtype=dt), np.array([3], dtype=dt)]
+        full = SignatureArray(pad + sigs + pad[:1], ks, dtype=dt)
+        base = SignatureArray.from_arrays(full.values, full.bounds[2:len(sigs) + 3], ks)
     ids = IDS[spec['ids']](n)
     mk = METAS[spec['meta']]
     meta = SignaturesMeta(**mk) if mk is not None else SignaturesMeta()
@@ -105,12 +110,12 @@ class RoundTrip(core.Family):
     def inputs(self, ctx):
         reps = 1 if ctx.tier == 'quick' else 6
         self.rule = ('collections with k in {1,4,5,8,9,16,17,32} (all four index widths; values 0, 4^k-1 and random), prefix length 1..13, '
-                     '1..6 signatures incl. all-empty and alternating-empty, containers array / list / annotated wrapper of each, ids '
+                     '1..6 signatures incl. all-empty and alternating-empty, containers array / list / zero-copy window (bounds[0] != 0) / annotated wrapper of each, ids '
                      '{default, ints, 2^62+i, ASCII, Unicode, with empty string, NumPy U / int32 / uint8 arrays, uint64 arrays with values >= 2^63, int64 arrays with negative values, tuple}, metadata {default, all None, empty strings, Unicode with '
                      'nested extra, ASCII}, compression {none, gzip 0/1/9, lzf}, widened dtype; dump_signatures -> load_signatures; plus '
                      'indexing of the loaded file with ints, slices, index lists and masks; non-trivial = >= 2 signatures, not all empty')
         ks = [1, 4, 5, 8, 9, 16, 17, 32]
-        conts = ['array', 'list', 'annotated-array', 'annotated-list']
+        conts = ['array', 'list', 'annotated-array', 'annotated-list', 'window', 'annotated-window']
         comps = [None, 'gzip:0', 'gzip:1', 'gzip:9', 'lzf']
         c = 0
         for rep in range(reps):
